@@ -140,18 +140,21 @@ def Frame.groupSaveSize (f : Frame) (g : Nat) : Nat :=
 Written as a chain of small definitions (one per assignment group of the C++ function) so that each
 reported field has a name the theorems can talk about; `Frame.finalize` assembles them. -/
 
+/-- the stack-argument base register `finalize` settles on: the user's choice, else `sp`, else (dynamic
+alignment) the frame pointer -/
+def Frame.saC (f : Frame) : Nat :=
+  let sa := if f.saRegId = 0xFF then f.arch.spId else f.saRegId
+  if f.hasDA ∧ sa = f.arch.spId then f.arch.fpId else sa
+
+/-- GP dirty mask after `finalize`: FP (and LR) when the frame pointer is preserved, the SA register unless it is `sp` -/
+def Frame.dirty0C (f : Frame) : Nat :=
+  let d0 := if f.hasFP then (f.dirty 0 ||| bit f.arch.fpId) ||| (match f.arch.lrId with | some lr => bit lr | none => 0)
+            else f.dirty 0
+  if f.saC ≠ f.arch.spId then d0 ||| bit f.saC else d0
+
 /-- first part of `finalize`: FP / LR / SA register made dirty, `_sp_reg_id`, `_sa_reg_id` -/
 def Frame.fin1 (f : Frame) : Frame :=
-  let a := f.arch
-  let kSp := a.spId
-  let kFp := a.fpId
-  let d0 := f.dirty 0
-  let d0 := if f.hasFP then (d0 ||| bit kFp) ||| (match a.lrId with | some lr => bit lr | none => 0) else d0
-  let sa := f.saRegId
-  let sa := if sa = 0xFF then kSp else sa
-  let sa := if f.hasDA ∧ sa = kSp then kFp else sa
-  let d0 := if sa ≠ kSp then d0 ||| bit sa else d0
-  { f with dirty := fun g => if g = 0 then u32 d0 else f.dirty g, spRegId := u8 kSp, saRegId := u8 sa }
+  { f with dirty := fun g => if g = 0 then u32 f.dirty0C else f.dirty g, spRegId := u8 f.arch.spId, saRegId := u8 f.saC }
 
 def Frame.regSize (f : Frame) : Nat := f.srSize 0
 def Frame.retAddrSize (f : Frame) : Nat := if f.arch.lrId.isSome then 0 else f.srSize 0
